@@ -1,4 +1,178 @@
+//! C15 — corrupt or hostile input is reported as an error, never a panic / hang / abort.
+//!
+//! E3 over a mutation alphabet, process-isolated (see `pool.rs`): for every corpus document and index
+//! (i) every truncation, (ii) at every byte offset the substitutions {0x00, 0xff, b^0x01, b^0x80, b+1, b-1}
+//! (quick) / all 255 other values (thorough), (iii) every located length / count / offset field set to
+//! {0, 1, v-1, v+1, 0x7f, 0x80, 0xffff, 2^31-1, 2^31, 2^32-1} (as the width allows) — with checksums re-sealed
+//! (BGZF payload mutated in the uncompressed stream and re-compressed with vmc::oracle::bgzf::make_block; CRAM
+//! container / block CRC32s recomputed; crai re-gzipped) so that the corruption reaches the decoder — (iv) the
+//! CRAM codec decoders on all byte strings up to a length and on every single-byte substitution and truncation
+//! of valid streams, (v) `query` / `query_unmapped` of the valid BAM / BCF / VCF.gz with each mutated index.
+//! Every record returned `Ok` has every accessor touched (vnd::read_log). Outcome must be Ok or io::Error.
+
+mod cases;
+mod pool;
+
+use std::time::Duration;
+
+use cases::{Mode, Plan};
+use pool::{C_BIG, C_ERR, C_NONTERM, C_OK, C_PANIC, C_TRIVIAL, Stages};
+use vmc::{Custom, Violation, json, serde_json::Value};
+use vnd::{Api, Format};
+
+#[global_allocator]
+static ALLOC: pool::GuardAlloc = pool::GuardAlloc;
+
+fn parse_format(s: &str) -> Option<Format> {
+    Format::ALL.iter().copied().find(|f| f.name() == s)
+}
+
+fn parse_mode(s: &str) -> Mode {
+    match s {
+        "Eager" => Mode::Read(Api::Eager),
+        "Lazy" => Mode::Read(Api::Lazy),
+        "Alt" => Mode::Read(Api::Alt),
+        _ => Mode::Query,
+    }
+}
+
+/// Executes a replay payload in an isolated child; returns Err(fingerprint-ish, observed) on failure.
+fn replay_payload(plan: &'static Plan, p: &Value) -> Result<(), (String, String)> {
+    let kind = p["kind"].as_str().unwrap_or("");
+    let input = cases::hex(p["input_hex"].as_str().unwrap_or(""));
+    let p2 = p.clone();
+    let r = pool::run_isolated(
+        move || {
+            pool::arm(false);
+            let r = vmc::catch(|| -> Result<String, (String, String)> {
+                if kind_is_codec(&p2) {
+                    let name = p2["codec"].as_str().unwrap_or("");
+                    let codec = plan.codecs.iter().copied().chain(plan.streams.iter().map(|s| s.codec)).find(|c| c.name() == name);
+                    match codec {
+                        Some(c) => Ok(format!("{:?}", c.decode(&input).map_err(|e| e.to_string()))),
+                        None => Ok("unknown codec".into()),
+                    }
+                } else {
+                    let format = parse_format(p2["format"].as_str().unwrap_or("")).unwrap_or(Format::Bgzf);
+                    let mode = parse_mode(p2["mode"].as_str().unwrap_or(""));
+                    let bed_n = p2["bed_n"].as_u64().unwrap_or(3) as usize;
+                    let data = p2["data"].as_str();
+                    cases::exec_doc(&plan.docs, format, mode, bed_n, data, &input).map(|(_, ok)| format!("ok={ok}"))
+                }
+            });
+            match r {
+                Ok(Ok(s)) => format!("FINE\t{s}"),
+                Ok(Err((fp, obs))) => format!("VIOL\t{fp}\t{obs}"),
+                Err((msg, file)) => format!("VIOL\toutcome=panic msg={} file={file}\tpanic: {msg} in {file}", vmc::normalise_msg(&msg)),
+            }
+        },
+        Duration::from_secs(10),
+    );
+    let _ = kind;
+    match r {
+        Ok(line) => {
+            let parts: Vec<&str> = line.split('\t').collect();
+            match parts.as_slice() {
+                ["FINE", ..] => Ok(()),
+                ["VIOL", fp, obs] => Err((fp.to_string(), obs.to_string())),
+                _ => Err(("outcome=unknown".into(), line)),
+            }
+        }
+        Err(e) => Err((e.clone(), format!("the isolated replay child: {e}"))),
+    }
+}
+
+fn kind_is_codec(p: &Value) -> bool {
+    p["kind"].as_str() == Some("codec")
+}
+
 fn main() {
-    println!("MACHINERY-ERROR property=C15 check not built yet");
-    std::process::exit(2);
+    vmc::run("C15", "fault_enumeration", |ctx| {
+        let thorough = ctx.thorough();
+        let plan: &'static Plan = cases::leak(Plan::new(thorough));
+        ctx.rule(format!(
+            "corpus documents ({}) x entry points (eager / lazy readers, index query) x [every truncation | every byte offset x {} substitution values | every located length/count/offset field x <= 12 boundary values], at the file layer and — for BGZF / gzip documents — at the uncompressed layer with re-sealed checksums; CRAM codec decoders x all byte strings of length <= {} and every 1-byte substitution / truncation of {} valid streams; distinct = distinct (format, entry, outcome message class, item count) tuples",
+            plan.docs.iter().filter(|d| !d.big).count(),
+            plan.n_sub,
+            plan.max_len,
+            plan.streams.len()
+        ));
+        ctx.assume("a single allocation request in [256 MiB, 16 GiB) is not judged: the case is cut short by parking the requesting thread (counted as big_alloc, listed by site); a request >= 16 GiB is classified as abort");
+        ctx.assume("the > 64 KiB documents are not mutated (their structure repeats that of the small ones)");
+        ctx.assume("miniz_oxide / crc32fast (re-sealing) are correct; a re-sealed CRAM keeps stale CRC32s only where the mutation itself made the container unwalkable");
+
+        // replay of one recorded case
+        if ctx.is_replay() {
+            for s in 0..plan.n_stages() {
+                let name = plan.stage_name(s);
+                if let Some(p) = ctx.custom_replay(&name) {
+                    println!("replaying {} case: {}", name, vmc::hex(&cases::hex(p["input_hex"].as_str().unwrap_or(""))));
+                    let o = match replay_payload(plan, &p) {
+                        Ok(()) => Ok(()),
+                        Err((fp, obs)) => Err(Violation::new(fp, p.to_string(), "Ok or io::Error", obs)),
+                    };
+                    ctx.set_replay_outcome(o);
+                }
+            }
+            return;
+        }
+
+        let only: Option<String> = std::env::var("C15_STAGE").ok();
+        let dir = std::path::PathBuf::from(format!("/tmp/vs-c15-{}", std::process::id()));
+        let limit = if thorough { Duration::from_secs(19 * 60) } else { Duration::from_secs(40) };
+        let results = pool::run_stages(
+            plan,
+            vmc::explore::default_threads(),
+            &dir,
+            |s| only.as_ref().map(|o| plan.stage_name(s).contains(o.as_str())).unwrap_or(true),
+            Some(limit),
+        );
+        let _ = std::fs::remove_dir_all(&dir);
+
+        let mut all_sites: std::collections::BTreeMap<String, u64> = Default::default();
+        for r in results {
+            let capped = r.name.ends_with("CAPPED");
+            let name = r.name.trim_end_matches(" CAPPED").to_string();
+            let mut extra = std::collections::BTreeMap::new();
+            extra.insert("ok".to_string(), json!(r.counters[C_OK]));
+            extra.insert("io_error".to_string(), json!(r.counters[C_ERR]));
+            extra.insert("panic_or_abort_cases".to_string(), json!(r.counters[C_PANIC]));
+            extra.insert("non_termination_or_hang_cases".to_string(), json!(r.counters[C_NONTERM]));
+            extra.insert("trivial_skipped".to_string(), json!(r.counters[C_TRIVIAL]));
+            extra.insert("big_alloc_not_judged".to_string(), json!(r.counters[C_BIG]));
+            extra.insert("big_alloc_sites".to_string(), json!(r.big_alloc_sites));
+            extra.insert("workers_restarted".to_string(), json!(r.workers_restarted));
+            extra.insert("engine".to_string(), json!("E3 complete sweep in forked workers (per-case deadline 2 s, allocation guard)"));
+            for (k, v) in &r.big_alloc_sites {
+                *all_sites.entry(k.clone()).or_insert(0) += v;
+            }
+            eprintln!(
+                "[C15] stage {name}: ok={} io_error={} panic/abort={} nonterm/hang={} trivial={} big_alloc={} restarts={}",
+                r.counters[C_OK], r.counters[C_ERR], r.counters[C_PANIC], r.counters[C_NONTERM], r.counters[C_TRIVIAL], r.counters[C_BIG], r.workers_restarted
+            );
+            let found = r
+                .findings
+                .into_values()
+                .map(|(f, count)| {
+                    let payload: Value = vmc::serde_json::from_str(&f.payload).unwrap_or(Value::Null);
+                    (Violation::new(f.fingerprint, f.decoded, f.expected, f.observed), payload, count)
+                })
+                .collect();
+            ctx.custom(Custom {
+                name,
+                evaluations: r.cases,
+                distinct: r.classes.len() as u64,
+                states: r.classes.len() as u64,
+                transitions: r.cases,
+                exhaustive: !capped,
+                capped: if capped { Some(format!("time_limit={}s", limit.as_secs())) } else { None },
+                samples: Vec::new(),
+                extra,
+                found,
+                wall_s: r.wall_s,
+                ..Default::default()
+            });
+        }
+        ctx.extra("big_alloc_sites_all_stages", json!(all_sites));
+    });
 }
